@@ -366,7 +366,7 @@ type HistCase struct {
 func (c *HistCase) ID() string { return strings.Join(c.Ops, " ") }
 
 var histOps = []string{"BanTag(vtag)", "BanTag(if)", "BanTag(nosuch)", "BanFilter(vfilter)", "BanFilter(nosuch)", "ReplaceTag(vtag)", "ReplaceFilter(vfilter)",
-	"FromString(plain)", "FromString(uses)", "FromBytes(plain)", "FromFile(plain)", "FromFile(uses)", "FromCache(plain)",
+	"FromString(plain)", "FromString(uses)", "FromBytes(plain)", "FromFile(plain)", "FromFile(uses)", "FromCache(plain)", "FromCache(uses)",
 	"RenderTemplateString(plain)", "RenderTemplateString(uses)", "RenderTemplateBytes(plain)", "RenderTemplateFile(plain)"}
 
 type model struct {
